@@ -1262,7 +1262,10 @@ def gen_cases(ctx):
         add(n, None, "unit-test")
     for m, want, comps in cxx_corpus(ctx, ctx.n(10, 40), ctx.n(8, 30), ctx.n(1, 4)):
         add(m, want, "corpus:" + "+".join(comps))
-    for m, want, comps in std_corpus(ctx):
+    stdn = std_corpus(ctx)
+    if not ctx.thorough() and len(stdn) > 260:          # quick tier: a sample (evaluation time is per name)
+        stdn = rng.sample(stdn, 260)
+    for m, want, comps in stdn:
         add(m, want, "corpus-std:" + "+".join(comps))
     for m, want, comps in rust_corpus(ctx, ctx.n(8, 25)):
         add(m, want, "corpus:rustc")
@@ -1282,7 +1285,7 @@ def gen_cases(ctx):
             add(n, None, "deep")
     gram = [c["name"] for c in cases if c["origin"] in ("grammar", "deep")]
     # (c) mutation
-    for _ in range(ctx.n(900, 14000)):
+    for _ in range(ctx.n(650, 14000)):
         s = rng.choice(base) if rng.random() < 0.55 else rng.choice(gram)
         for _ in range(rng.choice([1, 1, 1, 2, 3])):
             s = mutate(rng, s)
@@ -1379,7 +1382,9 @@ def run(ctx):
     common_meta(ctx)
     objdir, exe = setup(ctx)
     cases = gen_cases(ctx)
+    ctx.log("generated %d cases" % len(cases))
     res = run_and_eval(ctx, exe, cases, "cases")
+    ctx.log("evaluated")
     # (d) idempotence: every distinct plain result is a case of its own
     seen = set(c["name"] for c in cases)
     fed = []
@@ -1402,9 +1407,11 @@ def run(ctx):
             ctx.case(key=nm, nontrivial=nontriv, tags=tags_of(nm, c["impl"]) + ["origin:" + c["origin"].split(":")[0].split(" ")[0]],
                      sample=smp, size=len(nm))
     ctx.extra["cases_with_expected_name"] = sum(1 for c in cases if c["want"] is not None)
+    ctx.log("fed-back %d evaluated" % len(fed))
     judge(ctx, cases, res)
     judge(ctx, fed, res2, " (idempotence)")
     cli_tie(ctx, objdir, cases)
+    ctx.log("command-line tie done")
     e2e(ctx, objdir)
 
 
